@@ -898,6 +898,28 @@ Proof.
   destruct w as [|[p|p|]]; try discriminate; inversion G; subst; vm_compute; discriminate.
 Qed.
 
+
+(* ---------- the variant reader "length from an earlier look-up, then open and read
+   exactly that much" returns a truncated entry although every writer renames ---------- *)
+Definition tmp2 : string := tmp_prefix ++ "2" ++ tmp_suffix.
+Definition tr_stat_then_read : list vevent :=
+  [VE (ECreate 0 "u" cA tmp1); VE (EWrite 0 4); VE (EClose 0); VE (ERename 0);
+   VStat 0 "u";
+   VE (ECreate 1 "u" cB tmp2); VE (EWrite 1 6); VE (EClose 1); VE (ERename 1);
+   VSizedGet 0 "u"].
+
+Lemma stat_then_read_truncated :
+  forallb (fun ve => match ve with VE e => safe e | _ => true end) tr_stat_then_read = true /\
+  exists vs rr c, vexec sha0 (init, []) tr_stat_then_read = Some vs /\
+    getN 0%N (s_r (fst vs)) = Some rr /\ r_st rr = RDone (Hit c) /\
+    forall w wr, getN w (s_w (fst vs)) = Some wr -> c <> w_content wr.
+Proof.
+  split; [reflexivity|].
+  eexists. eexists. eexists. split; [vm_compute; reflexivity|]. split; [vm_compute; reflexivity|].
+  split; [reflexivity|]. intros w wr G. vm_compute in G.
+  destruct w as [|[p|p|]]; try discriminate; inversion G; subst; vm_compute; discriminate.
+Qed.
+
 (* ====================================================================== *)
 (* the case model meets the oracle                                         *)
 (* ====================================================================== *)
